@@ -24,6 +24,8 @@ CONSTANTS MaxEdits,      \* edit steps applied to the copy
           UseUnrelated,  \* BOOLEAN: also pair every left document with the unrelated documents
           RecordSubs,    \* BOOLEAN: edits may insert a one-key record (for lists of hashes)
           UseCurated,    \* BOOLEAN: left documents are the curated lists of records instead of the generator's
+          AllGlobals,    \* BOOLEAN (config family): every rule under both global settings, or only under the one it departs from
+          Family,        \* "modes": the modes given globally; "config": modes and identity keys given per path ([rules] / [keys])
           Repaired       \* the deviations (YDiff: "A".."E") already repaired in the code the mirrored differ follows
 VARIABLES phase, rd, ne
 
@@ -113,11 +115,31 @@ Curated == {
   <<N("map", "", "", 0, <<2, 6>>, <<S("str", "a"), S("str", "b")>>), N("seq", "", "", 1, <<3, 4, 5>>, <<>>), I1(2), I2(2), I1(2),
     N("set", "", "", 1, <<7>>, <<>>), Sc("str", "a", 6)>> }
 
+(* ---- curated left documents of the per-path configuration family ---- *)
+CuratedConfig == {
+  \* {p: {k: [1, 2]}, q: {k: [1, 2]}}          equal lists under equal parents under the same key
+  <<N("map", "", "", 0, <<2, 6>>, <<S("str", "p"), S("str", "q")>>), N("map", "", "", 1, <<3>>, <<S("str", "k")>>), N("seq", "", "", 2, <<4, 5>>, <<>>), I1(3), I2(3),
+    N("map", "", "", 1, <<7>>, <<S("str", "k")>>), N("seq", "", "", 6, <<8, 9>>, <<>>), I1(7), I2(7)>>,
+  \* {p: [1, 2], q: [1, 2], s: 1}              sibling lists (a wildcard matches both, and a scalar)
+  <<N("map", "", "", 0, <<2, 5, 8>>, <<S("str", "p"), S("str", "q"), S("str", "s")>>), N("seq", "", "", 1, <<3, 4>>, <<>>), I1(2), I2(2),
+    N("seq", "", "", 1, <<6, 7>>, <<>>), I1(5), I2(5), I1(1)>>,
+  \* {p: [{v: 1, n: 1}, {v: 1, n: 2}], q: [{v: 1, n: 1}, {v: 1, n: 2}]}     records whose first field is not an identity
+  <<N("map", "", "", 0, <<2, 9>>, <<S("str", "p"), S("str", "q")>>),
+    N("seq", "", "", 1, <<3, 6>>, <<>>), N("map", "", "", 2, <<4, 5>>, <<S("str", "v"), S("str", "n")>>), I1(3), I1(3),
+                                         N("map", "", "", 2, <<7, 8>>, <<S("str", "v"), S("str", "n")>>), I1(6), I2(6),
+    N("seq", "", "", 1, <<10, 13>>, <<>>), N("map", "", "", 9, <<11, 12>>, <<S("str", "v"), S("str", "n")>>), I1(10), I1(10),
+                                           N("map", "", "", 9, <<14, 15>>, <<S("str", "v"), S("str", "n")>>), I1(13), I2(13)>>,
+  \* [[1, 2], [1, 2]]                          lists held in a list
+  <<N("seq", "", "", 0, <<2, 5>>, <<>>), N("seq", "", "", 1, <<3, 4>>, <<>>), I1(2), I2(2), N("seq", "", "", 1, <<6, 7>>, <<>>), I1(5), I2(5)>>,
+  \* {x: [{n: 1}, {n: 2}], y: [1, 2]}          both kinds of list
+  <<N("map", "", "", 0, <<2, 7>>, <<S("str", "x"), S("str", "y")>>), N("seq", "", "", 1, <<3, 5>>, <<>>), N("map", "", "", 2, <<4>>, <<S("str", "n")>>), I1(3),
+    N("map", "", "", 2, <<6>>, <<S("str", "n")>>), I2(5), N("seq", "", "", 1, <<8, 9>>, <<>>), I1(7), I2(7)>> }
+
 (* ---- the machine ---- *)
 Init == GInit /\ phase = "gen" /\ rd = <<>> /\ ne = 0
 Build == ~UseCurated /\ phase = "gen" /\ GNext /\ UNCHANGED <<phase, rd, ne>>
 Fork == ~UseCurated /\ phase = "gen" /\ fresh /\ phase' = "pair" /\ rd' = doc /\ ne' = 0 /\ UNCHANGED gvars
-ForkCurated == UseCurated /\ phase = "gen" /\ \E d \in Curated : doc' = d /\ rd' = d /\ open' = <<>> /\ fresh' = FALSE /\ phase' = "pair" /\ ne' = 0
+ForkCurated == UseCurated /\ phase = "gen" /\ \E d \in (IF Family = "config" THEN CuratedConfig ELSE Curated) : doc' = d /\ rd' = d /\ open' = <<>> /\ fresh' = FALSE /\ phase' = "pair" /\ ne' = 0
 Edited(DS) == phase = "pair" /\ ne < MaxEdits /\ \E d \in DS \ {rd} : rd' = d /\ ne' = ne + 1 /\ UNCHANGED <<doc, open, fresh, phase>>
 EdReplace == Edited(EditReplace(rd))
 EdRetype == Edited(EditRetype(rd))
@@ -125,11 +147,14 @@ EdDelete == Edited(EditDelete(rd))
 EdInsert == Edited(EditInsert(rd))
 EdSwap == Edited(EditSwap(rd))
 Unrelate == UseUnrelated /\ phase = "pair" /\ ne = 0 /\ \E d \in Unrelated : rd' = d /\ ne' = 9 /\ UNCHANGED <<doc, open, fresh, phase>>
-Next == Build \/ Fork \/ ForkCurated \/ EdReplace \/ EdRetype \/ EdDelete \/ EdInsert \/ EdSwap \/ Unrelate
+\* the per-path lookups read the RIGHT document: also compare the edited document (left) with the curated one (right)
+Flip == Family = "config" /\ phase = "pair" /\ ne \in 1..MaxEdits /\ doc' = rd /\ rd' = doc /\ ne' = ne + 10 /\ UNCHANGED <<open, fresh, phase>>
+Next == Build \/ Fork \/ ForkCurated \/ Flip \/ EdReplace \/ EdRetype \/ EdDelete \/ EdInsert \/ EdSwap \/ Unrelate
 Spec == Init /\ [][Next]_dvars
 
 (* ---- the modes that can matter for a pair: the code consults them for a non-empty right list only ---- *)
-Cfg(a, h, fx) == [arrays |-> a, aoh |-> h, fixed |-> fx]
+CfgOf(m, fx) == [arrays |-> m.ar, aoh |-> m.ao, rules |-> m.rules, keys |-> m.keys, fixed |-> fx]
+GCase(a, h) == [ar |-> a, ao |-> h, rules |-> <<>>, keys |-> <<>>]
 ArrayModes == {"position", "value"}
 AoHModes == {"position", "dpos", "value", "key", "deep"}
 FullSeqs(d) == {i \in 1..Len(d) : d[i].k = "seq" /\ Len(d[i].kids) > 0}
@@ -138,18 +163,38 @@ ModesOf(l, r) ==
   ELSE IF \A i \in FullSeqs(r) : r[r[i].kids[1]].k # "map" THEN {<<a, "position">> : a \in ArrayModes}
   ELSE ArrayModes \X AoHModes
 
+(* ---- the per-path configurations of a pair: one [rules] line and/or one [keys] line naming a list of the right
+   document by its path or by that path with one hash key replaced by the wildcard ---- *)
+SeqIds(d) == {i \in 1..Len(d) : d[i].k = "seq"}
+PathsFor(d, j) == LET q == PathOf(d, j) IN {q} \cup {[q EXCEPT ![k] = WildStep] : k \in {x \in 1..Len(q) : q[x].i = -1}}
+RuleModes(d, j) == IF SeqKind(d, j) = "aoh" THEN AoHModes ELSE ArrayModes
+ConfigGlobals == {<<"position", "position">>, <<"value", "deep">>}
+One(p, v) == <<[p |-> p, v |-> v]>>
+ConfigsOf(l, r) ==
+  {c \in {[ar |-> g[1], ao |-> g[2], rules |-> One(q, m), keys |-> <<>>] : g \in ConfigGlobals, q \in UNION {PathsFor(r, j) : j \in SeqIds(r)}, m \in AoHModes} :
+     AllGlobals \/ (c.ar = "position" <=> c.rules[1].v \in {"value", "key", "deep"})}
+  \cup {[ar |-> "position", ao |-> h, rules |-> <<>>, keys |-> One(q, kk)] :
+          h \in {"key", "deep"}, q \in UNION {PathsFor(r, j) : j \in {x \in SeqIds(r) : SeqKind(r, x) = "aoh"}}, kk \in {"n", "v"}}
+  \cup {[ar |-> "position", ao |-> "position", rules |-> One(q, h), keys |-> One(q, "n")] :
+          h \in {"key", "deep"}, q \in UNION {PathsFor(r, j) : j \in {x \in SeqIds(r) : SeqKind(r, x) = "aoh"}}}
+\* a rule must name a mode the list's kind has (else the code refuses the configuration: no verdict, not generated)
+RuleFits(r, m) == \A k \in 1..Len(m.rules) : \A j \in SeqIds(r) :
+  j \in MatchFrom(r, {Root}, m.rules[k].p, 1) => m.rules[k].v \in RuleModes(r, j)
+CasesOf(l, r) == IF Family = "config" THEN {m \in ConfigsOf(l, r) : RuleFits(r, m)}
+                 ELSE {GCase(m[1], m[2]) : m \in ModesOf(l, r)}
+
 (* ---- design theorems on the repaired differ ---- *)
 FixedOK(l, r, m) ==
-  LET cfg == Cfg(m[1], m[2], AllFixes) df == Diff(l, r, cfg) IN
+  LET cfg == CfgOf(m, AllFixes) df == Diff(l, r, cfg) IN
   df.dom => (~df.crash /\ VerdictOK(Verdict(Valued(df.es, l, r), l, r, cfg)))
-Theorems == phase = "pair" => \A m \in ModesOf(doc, rd) : FixedOK(doc, rd, m)
+Theorems == phase = "pair" => \A m \in CasesOf(doc, rd) : FixedOK(doc, rd, m)
 Reflexive == (phase = "pair" /\ ne = 0) => \A m \in ArrayModes \X AoHModes :
-  LET df == Diff(doc, doc, Cfg(m[1], m[2], AllFixes)) IN df.dom => (~df.crash /\ NoChange(Valued(df.es, doc, doc)))
+  LET df == Diff(doc, doc, CfgOf(GCase(m[1], m[2]), AllFixes)) IN df.dom => (~df.crash /\ NoChange(Valued(df.es, doc, doc)))
 
 \* the same clauses on the MIRRORED differ: expected to fail (zip_longest reading null as absent, the skipped empty
 \* right list, ...); kept as an invariant of its own so that a small cfg can show the counterexample
-MirroredTheorems == phase = "pair" => \A m \in ModesOf(doc, rd) :
-  LET cfg == Cfg(m[1], m[2], Repaired) df == Diff(doc, rd, cfg) IN
+MirroredTheorems == phase = "pair" => \A m \in CasesOf(doc, rd) :
+  LET cfg == CfgOf(m, Repaired) df == Diff(doc, rd, cfg) IN
   df.dom => (~df.crash /\ VerdictOK(Verdict(Valued(df.es, doc, rd), doc, rd, cfg)))
 
 (* ---- emission of every pair with the mirrored report and its verdicts ---- *)
@@ -158,14 +203,18 @@ CPath(p) == [k \in 1..Len(p) |-> CStep(p[k])]
 CDoc(d) == [n \in 1..Len(d) |-> <<d[n].k, d[n].t, d[n].v, d[n].par, [k \in 1..Len(d[n].keys) |-> <<d[n].keys[k].t, d[n].keys[k].v>>]>>]
 CEnt(e) == <<SubSeq(e.a, 1, 1), CPath(e.p), e.li, e.ri>>
 ModeCase(l, r, m) ==
-  LET cfg == Cfg(m[1], m[2], Repaired) df == Diff(l, r, cfg)
+  LET cfg == CfgOf(m, Repaired) df == Diff(l, r, cfg)
       v == IF df.crash THEN [truthful |-> FALSE, covers |-> FALSE, accounted |-> FALSE, nochange |-> FALSE, expect |-> Expect(cfg, l, r)]
            ELSE Verdict(Valued(df.es, l, r), l, r, cfg)
-  IN [ar |-> m[1], ao |-> m[2], es |-> [k \in 1..Len(df.es) |-> CEnt(df.es[k])], crash |-> df.crash, dom |-> df.dom,
+  IN [ar |-> m.ar, ao |-> m.ao, ru |-> [k \in 1..Len(m.rules) |-> <<CPath(m.rules[k].p), m.rules[k].v>>],
+      ky |-> [k \in 1..Len(m.keys) |-> <<CPath(m.keys[k].p), m.keys[k].v>>], es |-> [k \in 1..Len(df.es) |-> CEnt(df.es[k])], crash |-> df.crash, dom |-> df.dom,
       t |-> v.truthful, c |-> v.covers, a |-> v.accounted, n |-> v.nochange, x |-> v.expect]
-EmitPair(l, r) ==
-  \A a \in {m[1] : m \in ModesOf(l, r)} :
-    CSVWrite("%1$s", <<ToJson([l |-> CDoc(l), r |-> CDoc(r), ne |-> ne,
-                               ms |-> SetToSeq({ModeCase(l, r, m) : m \in {mm \in ModesOf(l, r) : mm[1] = a}})])>>, IOEnv.CASES_OUT)
+RECURSIVE WriteCases(_, _, _, _)
+WriteCases(l, r, cs, from) ==           \* a few cases per line: lines stay below the size at which concurrent appends interleave
+  IF from > Len(cs) THEN TRUE
+  ELSE /\ CSVWrite("%1$s", <<ToJson([l |-> CDoc(l), r |-> CDoc(r), ne |-> ne,
+                                      ms |-> [k \in 1..(IF from + 4 > Len(cs) THEN Len(cs) - from + 1 ELSE 5) |-> ModeCase(l, r, cs[from + k - 1])]])>>, IOEnv.CASES_OUT)
+       /\ WriteCases(l, r, cs, from + 5)
+EmitPair(l, r) == WriteCases(l, r, SetToSeq(CasesOf(l, r)), 1)
 Emit == phase = "pair" => EmitPair(doc, rd)
 =============================================================================
